@@ -67,20 +67,20 @@ def main(argv):
     results = {}
     walls = {}
     qcap = int(os.environ.get("VERIF_HARNESS_TIMEOUT", "600" if tier == "quick" else "2700"))
-    for g in sorted(set(s.group for s in specs)):
-        gs = [s for s in specs if s.group == g]
-        res, wall, logtxt = runner.run_group(gs, g, tier, "%s_%s" % (pid, tier), jobs=a.jobs, default_timeout=qcap)
+    for (g, feat) in sorted(set((s.group, s.features or "") for s in specs)):
+        gs = [s for s in specs if s.group == g and (s.features or "") == feat]
+        res, wall, logtxt = runner.run_group(gs, g, tier, "%s_%s%s" % (pid, tier, ("_" + feat) if feat else ""), jobs=a.jobs, default_timeout=qcap, features=feat or None)
         # a crash of kani-driver / cbmc loses the whole batch: isolate by re-running in small chunks
         lost = [s for s in gs if res[s.name]["status"] == "error" and "no JSON" in str(res[s.name].get("reason"))]
         if lost and len(gs) > 1 and "error: could not compile" not in logtxt and "error[E" not in logtxt:
             chunk = 6
             for k in range(0, len(lost), chunk):
                 sub = lost[k:k + chunk]
-                r2, w2, l2 = runner.run_group(sub, g, tier, "%s_%s_retry%d" % (pid, tier, k), jobs=a.jobs, default_timeout=qcap)
+                r2, w2, l2 = runner.run_group(sub, g, tier, "%s_%s_retry%d" % (pid, tier, k), jobs=a.jobs, default_timeout=qcap, features=feat or None)
                 still = [s for s in sub if r2[s.name]["status"] == "error" and "no JSON" in str(r2[s.name].get("reason"))]
                 if still and len(sub) > 1:
                     for s1 in still:
-                        r3, w3, l3 = runner.run_group([s1], g, tier, "%s_%s_single" % (pid, tier), jobs=1, default_timeout=qcap)
+                        r3, w3, l3 = runner.run_group([s1], g, tier, "%s_%s_single" % (pid, tier), jobs=1, default_timeout=qcap, features=feat or None)
                         if r3[s1.name]["status"] == "error":
                             r3[s1.name]["status"] = "undecided"
                             r3[s1.name]["reason"] = "kani-driver/cbmc crashed on this harness (no verdict)"
@@ -89,7 +89,7 @@ def main(argv):
                 res.update(r2)
                 wall += w2
         results.update(res)
-        walls[g] = wall
+        walls[g + (("+" + feat) if feat else "")] = wall
 
     # ---- verdicts ------------------------------------------------------------------------------
     known = load_known()
